@@ -14,13 +14,40 @@ def interp(v):
     return '/root/.pyenv/versions/%s/bin/python' % FULL[v], v
 
 
+CRASHED = []        # (version, source) on which a reference interpreter itself died (a CPython bug): outside every claim, reported in the coverage
+
+
 def run_ref(script, v, sources, timeout=600):
     exe, rv = interp(v)
-    p = subprocess.run([exe, os.path.join(HERE, 'ref', script)], input=json.dumps(sources), capture_output=True, text=True, timeout=timeout,
-                       env={'PYTHONHASHSEED': '0', 'PATH': '/usr/bin:/bin'})
-    if p.returncode != 0:
-        raise RuntimeError('reference interpreter %s failed: %s' % (exe, p.stderr[-500:]))
-    return json.loads(p.stdout)
+    head = []
+    body = list(sources)
+    if body and isinstance(body[0], str) and body[0].startswith('\x00'):
+        head, body = body[:1], body[1:]           # a mode switch of the script, not a source
+
+    def once(part):
+        try:
+            p = subprocess.run([exe, os.path.join(HERE, 'ref', script)], input=json.dumps(head + part), capture_output=True, text=True, timeout=timeout,
+                               env={'PYTHONHASHSEED': '0', 'PATH': '/usr/bin:/bin'})
+        except subprocess.TimeoutExpired:
+            return None, 'timeout'
+        if p.returncode != 0:
+            return None, p.stderr[-500:]
+        return json.loads(p.stdout), ''
+
+    def rec(part):
+        if not part:
+            return []
+        out, err = once(part)
+        if out is not None:
+            return out
+        if len(part) == 1:
+            # the reference interpreter crashes on this very program (e.g. `Fatal Python error: PyCompile_OpcodeStackEffect` of 3.8 on a
+            # yield inside an asynchronous comprehension): it cannot judge it, the program counts as not accepted
+            CRASHED.append((v, part[0][:200], err[-200:]))
+            return [None]
+        mid = len(part) // 2
+        return rec(part[:mid]) + rec(part[mid:])
+    return rec(body)
 
 
 def stdlib_files(v, n, rnd):
